@@ -117,7 +117,7 @@ Qed.
 
 (** The generic commands that call [SetExpiry]; their effect is given by [deadline_cmds_refine]. *)
 Definition sets_deadline (name : string) : bool :=
-  bool_decide (name ∈ ["set"; "getex"; "expire"; "pexpire"; "expireat"; "pexpireat"; "persist"]).
+  bool_decide (name ∈ ["set"; "getex"; "expire"; "pexpire"; "expireat"; "pexpireat"; "persist"; "rename"]).
 
 Lemma nx_generic name h argv :
   generic_handler name = Some h -> sets_deadline name = false -> nosx (h argv).
